@@ -112,8 +112,148 @@ def build(toks):
                  is_private=priv, network=net, witness_type=wt, multisig=ms, compressed=comp)
 
 
+def pref_of(tok):
+    """explicit version bytes: '-' None | 'e' b'' | b<hex> bytes | s<hex text> str"""
+    if tok == '-':
+        return None
+    if tok == 'e':
+        return b''
+    if tok[0] == 'b':
+        return bytes.fromhex(tok[1:])
+    if tok[0] == 's':
+        return tok[1:]
+    raise ValueError('prefix token')
+
+
+def wt_of(tok):
+    return None if tok == '-' else ('' if tok == 'e' else tok)
+
+
+def typed(v):
+    if v is None:
+        return 'None'
+    if isinstance(v, bool):
+        return 'bool'
+    if isinstance(v, int):
+        return 'i:%d' % v
+    if isinstance(v, (bytes, bytearray)):
+        return 'b:' + hx(bytes(v))
+    if isinstance(v, str):
+        return 's:' + hx(v.encode('latin-1'))
+    return 'other:' + type(v).__name__
+
+
+def fields(obj, hd):
+    return 'p=%s c=%s net=%s child=%s' % (b01(obj.is_private), b01(obj.compressed), obj.network.name,
+                                          ('%d' % obj.child_index) if hd else '-')
+
+
+def seq(t):
+    """seq <K|KW|H|HW> <12 keymeta tokens> <op> ... : every call on ONE object, in this process, in order"""
+    mode, m, ops = t[1], t[2:14], t[14:]
+    hd = mode[0] == 'H'
+    try:
+        if hd:
+            obj = build(m)
+            if mode == 'HW':
+                obj = HDKey(obj.wif_key(), network=m[9], witness_type=m[10], multisig=tf(m[11]))
+        else:
+            raw = unhx(m[1]) if tf(m[0]) else (unhx(m[2]) if tf(m[4]) else unhx(m[3]))
+            obj = Key(raw, network=m[9], compressed=tf(m[4]), is_private=tf(m[0]))
+            if mode == 'KW':
+                obj = Key(obj.wif(), network=m[9])
+    except Exception as e:
+        return 'BUILD ' + err_tok(e)
+    out = []
+    for op in ops:
+        f = op.split(':')
+        try:
+            body = seq_op(obj, hd, f)
+            if isinstance(body, tuple):         # public(): the object is replaced
+                obj, body = body
+        except Exception as e:
+            body = err_tok(e)
+        out.append('%s # %s' % (body, fields(obj, hd)))
+    return ' || '.join(out)
+
+
+def reimport(obj, hd, text, mode, xkey=False):
+    if mode == 'x':
+        return '-'
+    hint = obj.network.name if mode == 'h' else '-'
+    if hd or xkey:
+        return do_import('hdkey', text, [hint, '-', 'f', 't'])
+    return do_import('key', text, [hint, 't', 'n'])
+
+
+def seq_op(obj, hd, f):
+    k = f[0]
+    if k == 'wif':
+        w = obj.wif_key(pref_of(f[1])) if hd else obj.wif(pref_of(f[1]))
+        return 'X=%s | %s | %s' % (w, gkf(w, None), reimport(obj, hd, w, f[2]))
+    if k in ('x', 'xprv', 'xpub'):
+        if k == 'x':
+            child = None if f[2] == '-' else int(f[2])
+            w = obj.wif(is_private=otf(f[1]), child_index=child, prefix=pref_of(f[3]), witness_type=wt_of(f[4]),
+                        multisig=otf(f[5]))
+            imp = f[6]
+        else:
+            fn = obj.wif_private if k == 'xprv' else obj.wif_public
+            w = fn(prefix=pref_of(f[1]), witness_type=wt_of(f[2]), multisig=otf(f[3]))
+            imp = f[4]
+        return 'X=%s | %s | %s' % (w, gkf(w, None), reimport(obj, hd, w, imp, xkey=True))
+    if k == 'net':
+        obj.network_change(f[1])
+        return 'OK'
+    if k == 'public':
+        return obj.public(), 'OK'
+    if k == 'addr':
+        try:
+            a = obj.address(compressed=otf(f[1]), prefix=pref_of(f[2]))
+        except Exception as e:
+            a = err_tok(e).replace(' ', '_')
+        return 'A comp=%s a=%s' % (b01(obj.compressed), a)
+    if k in ('hex', 'bytes', 'int'):
+        if k == 'hex':
+            v = obj.as_hex(private=tf(f[1]))
+        elif k == 'bytes':
+            v = obj.as_bytes(private=tf(f[1]))
+        else:
+            v = obj.__int__()
+        imp = f[-1]
+        if v is None or imp == 'x':
+            r = '-'
+        else:
+            try:
+                r = 'OK ' + ko_s(Key(v, network=obj.network.name, compressed=obj.compressed))
+            except Exception as e:
+                r = err_tok(e)
+        return 'R=%s | %s' % (typed(v), r)
+    if k == 'enc':
+        pw = unhx(f[1]).decode('latin-1')
+        e = obj.encrypt(pw)
+        d = '-'
+        if f[2] == 'd':
+            try:
+                k2 = Key(e, password=pw, network=obj.network.name)
+                d = 'OK ' + ko_s(k2)
+            except Exception as ex:
+                d = err_tok(ex)
+        return 'ENC e=%s g=%s d=%s' % (e, gkf(e, None).replace(' ', ','), d.replace(' ', ','))
+    if k == 'dict':
+        d = obj.as_dict(include_private=tf(f[1]))
+        keys = ('network', 'compressed', 'is_private', 'private_hex', 'secret', 'wif', 'public_hex', 'child_index', 'depth',
+                'extended_wif_public', 'extended_wif_private', 'chain_code', 'fingerprint_parent')
+        return 'D ' + ' '.join('%s=%s' % (x, d[x]) for x in keys if x in d)
+    if k == 'repr':
+        return 'P ' + repr(obj).replace(' ', '')
+    return 'BADOP'
+
+
 def dispatch(t):
     k = t[0]
+    if k == 'seq':
+        return seq(t)
     if k == 'gkf':
         return gkf(key_of_tok(t[1]), otf(t[2]))
     if k == 'wps':
